@@ -454,7 +454,7 @@ class PatternLexDomain(c12.LexDomain):
     CLS = {"5": "D", "0": "D", ".": ".", "e": "e", "E": "e", "+": "+", "-": "-"}
 
     def call(self, it, name, args, store, term, frame):
-        if name == c12.LEX + "step":
+        if name == self.n_step:
             outs = []
             for st in self.observe(store, 0):
                 cur, nxt = self.lex(st)
@@ -469,9 +469,7 @@ class PatternLexDomain(c12.LexDomain):
                     pat = "~" + ("x" if "x" in pat or pat.startswith("~x") else "")
                 st2 = self.setlex(st, nxt, None)
                 st2[("pattern",)] = pat
-                selfv = it.read_ref(st2, args[0])
-                if isinstance(selfv, Agg):
-                    st2 = it.write_ref(st2, args[0], selfv.with_field(1, c12.PGT))
+                st2 = self.advance(it, st2, args[0])
                 outs.append((core.UNIT, st2))
             return outs
         return super().call(it, name, args, store, term, frame)
@@ -502,7 +500,7 @@ def r5_lexer(facts, rep):
     number = facts.discr_of("syntax::parser::Syntax", "NUMBER")
     produced = {}
     for first in sorted(set(alphabet)):
-        dom = PatternLexDomain(ats)
+        dom = PatternLexDomain(ats, facts=facts)
         it = core.Interp(facts, dom, budget=400000)
         st = dom.setlex({(0, 0): c12.lexer_value(False)}, first, None)
         try:
